@@ -14,6 +14,10 @@ def norm_impl(g):
 def expected_of_model(a, with_ct):
     if a == 'proxy':
         return '200:body:' + UPSTREAM + (':ct:none' if with_ct else '')
+    if a.startswith('ws:'):
+        # a WebSocket tunnel: the mock target named @UP@ answers "UPSTREAM", @UPk@ answers "UPk"
+        t = bytes.fromhex(a[3:]).decode()
+        return '200:body:' + (b'UPSTREAM' if t == '@UP@' else t.strip('@').encode()).hex() + (':ct:none' if with_ct else '')
     return a
 
 
